@@ -88,10 +88,12 @@ def generate(run_seed, prop, tier="quick"):
             if prop == "C06":
                 size = rng.randint(5, 14) if small else rng.randint(10, 30)
                 item = gen_mol.build_item(rng, size=size, n_leaves=rng.randint(3, 9),
-                                          mid_levels=rng.choice([0, 1, 1, 2, 2, 2, 3, 3]), weights=rng.random() < 0.3)
+                                          mid_levels=rng.choice([0, 1, 1, 2, 2, 2, 3, 3]), weights=rng.random() < 0.3,
+                                          hyper=("S", "P", "N") if rng.random() < 0.4 else (), explicit_h=rng.random() < 0.25)
             else:
                 item = gen_mol.build_item(rng, size=rng.randint(3, 12) if small else rng.randint(8, 30),
-                                          weights=rng.random() < 0.4)
+                                          weights=rng.random() < 0.4,
+                                          hyper=("S", "P", "N") if rng.random() < 0.4 else (), explicit_h=rng.random() < 0.25)
         elif roll < 0.86:
             item = gen_mol.build_repeat_item(rng)
         else:
